@@ -307,9 +307,15 @@ def build(r, W):
             return mode.ECB(g("cipher"), **kw)
         return mode.CBC(g("cipher"), g("iv"), **kw)
     if k == "CTR":
-        return _m("crysp.mode").CTR(g("cipher"), g("counter"))
+        o = _m("crysp.mode").CTR(g("cipher"), g("counter"))
+        if "counter_setup" in r:        # configured further through the counter's public setup()
+            o.counter.setup(*[dec_lit(a, W) for a in r["counter_setup"]])
+        return o
     if k == "DefaultCounter":
-        return _m("crysp.mode").DefaultCounter(r["bytesize"], g("iv"))
+        o = _m("crysp.mode").DefaultCounter(r["bytesize"], g("iv"))
+        if "setup" in r:
+            o.setup(*[dec_lit(a, W) for a in r["setup"]])
+        return o
     if k == "Salsa20":
         return _m("crysp.salsa20").Salsa20(g("key"), r.get("rounds", 20))
     if k == "Chacha":
@@ -421,9 +427,18 @@ def _do(step, W):
     if k == "mutate_result":
         # environment action: the caller modifies a (mutable) value a call handed back to it
         r = W.results.get(step["ref"])
+        if "item" in step:
+            # ... one of the items a generator pull handed over (the consumer owns what it was given)
+            r = r[step["item"]] if isinstance(r, list) and len(r) > step["item"] else None
         if isinstance(r, list) and r:
-            r[0], r[-1] = r[-1], r[0]
-            r.append(r[0])
+            how = step.get("how", "swap")
+            if how == "reverse":
+                r.reverse()
+            elif how == "clear":
+                del r[:]
+            else:
+                r[0], r[-1] = r[-1], r[0]
+                r.append(r[0])
         return None
     if k == "mutate":
         # environment action: the caller overwrites the content of its own mutable buffer object
@@ -445,7 +460,8 @@ def exec_plan(plan, count_mode=False):
     """
     W = World(plan)
     for i, r in enumerate(plan["objects"]):
-        W.objs[i] = build(r, W)
+        # a 'deferred' recipe is only built by its 'make' step (e.g. a construction expected to be refused)
+        W.objs[i] = None if r.get("deferred") else build(r, W)
     observe = plan.get("observe", [])
     fps = plan.get("fp", [])
     events = []
